@@ -46,6 +46,7 @@ pub struct PSource {
 	pub tc: String,
 	pub raw: HashMap<Vec<u8>, u32>, // raw payload -> id
 	pub tiles: Vec<(u8, u32, u32, u32)>,
+	pub src: Source,
 }
 
 pub fn psource_of(s: &Value, k: usize) -> PSource {
@@ -69,7 +70,7 @@ pub fn psource_of(s: &Value, k: usize) -> PSource {
 	}
 	let mut mem = src.mem_reader();
 	mem.name = format!("src{k}");
-	PSource { mem, tc, raw, tiles: src.tiles.clone() }
+	PSource { mem, tc, raw, tiles: src.tiles.clone(), src }
 }
 
 fn pipe_case(rt: &tokio::runtime::Runtime, dir: &Path, case: &Value, n: usize) -> Value {
@@ -87,9 +88,9 @@ fn pipe_case(rt: &tokio::runtime::Runtime, dir: &Path, case: &Value, n: usize) -
 			let f = if fmt == "mbtiles" && s.tc != "gzip" { "versatiles" } else { fmt.as_str() };
 			let p = file_path(dir, f, &format!("psrc{}", k + 1));
 			remove_path(&p);
-			let mut m = s.mem.clone();
-			let ps = p.to_str().unwrap().to_string();
-			let _ = catch(|| rt.block_on(write_to_filename(&mut m, &ps)));
+			// written by the independent encoder of that format (the real writers are the subject of C01, not of this check)
+			let fsrc = Source { fmt: f.to_string(), tf: s.src.tf.clone(), tc: s.src.tc.clone(), tiles: s.src.tiles.clone(), blobs: s.src.blobs.clone(), by_bytes: s.src.by_bytes.clone() };
+			let _ = produce(rt, &json!({"origin":"indep","choices":{"partial_blocks":1,"dot_prefix":1}}), &fsrc, &p);
 			file_paths.push(p);
 		}
 	}
@@ -120,7 +121,8 @@ fn pipe_case(rt: &tokio::runtime::Runtime, dir: &Path, case: &Value, n: usize) -
 		.iter()
 		.map(|s| json!({"tiles": s.tiles.iter().map(|t| json!([t.0,t.1,t.2,t.3])).collect::<Vec<_>>(), "tc": s.tc, "cov": pyramid_json(&s.mem.params.bbox_pyramid)}))
 		.collect();
-	let mut ev = json!({"ev":"pipe","id":n,"tree":tree,"vpl":vpl,"invalid":case["invalid"],"sources":src_json,"maxlevel":7,
+	let maxlevel = sources.iter().flat_map(|s| s.tiles.iter().map(|t| t.0)).max().unwrap_or(0).max(7);
+	let mut ev = json!({"ev":"pipe","id":n,"tree":tree,"vpl":vpl,"invalid":case["invalid"],"sources":src_json,"maxlevel":maxlevel,
 		"files": use_files.clone().unwrap_or_default()});
 	let factory = PipelineFactory::default(dir, callback);
 	let built = catch(|| rt.block_on(factory.operation_from_vpl(&vpl)));
@@ -176,7 +178,7 @@ fn pipe_case(rt: &tokio::runtime::Runtime, dir: &Path, case: &Value, n: usize) -
 		for t in &s.tiles {
 			let max = ((1u64 << t.0) - 1) as u32;
 			coords.insert((t.0, t.1, t.2));
-			coords.insert((t.0, (t.1 + 1).min(max), t.2));
+			coords.insert((t.0, (t.1 as u64 + 1).min(max as u64) as u32, t.2));
 			coords.insert((t.0, t.1, t.2.saturating_sub(1)));
 		}
 	}
@@ -211,10 +213,14 @@ fn pipe_case(rt: &tokio::runtime::Runtime, dir: &Path, case: &Value, n: usize) -
 		if !all.is_empty() {
 			let (x0, x1) = (all.iter().map(|t| t.1).min().unwrap(), all.iter().map(|t| t.1).max().unwrap());
 			let (y0, y1) = (all.iter().map(|t| t.2).min().unwrap(), all.iter().map(|t| t.2).max().unwrap());
-			boxes.push(rb(z, x0, y0, x1, y1));
-			boxes.push(rb(z, x0.saturating_sub(1), y0.saturating_sub(1), (x1 + 1).min(max), (y1 + 1).min(max)));
-			boxes.push(rb(z, x0, y0, (x0 + x1) / 2, y1));
-			boxes.push(rb(z, (x0 + x1) / 2 + 1, y0, x1.max((x0 + x1) / 2 + 1).min(max), y1));
+			// (boxes spanning a sizeable part of a deep level are not streamed: 2^60 coordinates)
+			if (x1 - x0) as u64 * (y1 - y0) as u64 <= 1 << 16 {
+				let mid = ((x0 as u64 + x1 as u64) / 2) as u32;
+				boxes.push(rb(z, x0, y0, x1, y1));
+				boxes.push(rb(z, x0.saturating_sub(1), y0.saturating_sub(1), (x1 as u64 + 1).min(max as u64) as u32, (y1 as u64 + 1).min(max as u64) as u32));
+				boxes.push(rb(z, x0, y0, mid, y1));
+				boxes.push(rb(z, (mid as u64 + 1).min(max as u64) as u32, y0, x1.max((mid as u64 + 1).min(max as u64) as u32), y1));
+			}
 			for t in all.iter().take(3) {
 				boxes.push(rb(z, t.1, t.2, t.1, t.2));
 			}
